@@ -428,6 +428,26 @@ def rule_r2b(ck, prog, ct, rule='C12.R2b'):
                     ck.holds(rule, ct, 'combine-high-low', n, 'low part %r stays below bit %d' % (lo, k))
     if not found:
         ck.inconclusive(rule, ct, 'combine-high-low', None, 'no high/low combination found in the threshold mapping (shape not recognised)')
+        return
+    # the combination fits 64 bits. Intervals alone cannot show that (high and low part are correlated), the modf identity can:
+    # with (h, fr) = modf(x), (h << k) + (ldexp(fr, k) + x) = x * (2^k + 1), so the largest threshold is x.hi * (2^k + 1)
+    modfs = [n for n in ct.nodes if n['k'] == 'call' and strip_targs(n.get('c', '') or '').rsplit('::', 1)[-1] == 'modf' and n.get('args')]
+    ldexps = [n for n in ct.nodes if n['k'] == 'call' and strip_targs(n.get('c', '') or '').rsplit('::', 1)[-1] == 'ldexp' and len(n.get('args', [])) == 2]
+    shifts = [n for n in ct.nodes if n['k'] == 'binop' and n['op'] == '<<' and 'v' in ct.nodes[n['rhs']]]
+    if len(modfs) == 1 and len(shifts) == 1 and ldexps:
+        k = ct.nodes[shifts[0]['rhs']]['v']
+        x = _itv(g, rd, ct, modfs[0]['args'][0], env)
+        same_scale = any(modfs[0]['i'] in set(subtree_through_locals(ct, l['args'][0])) | {l['args'][0]} and
+                         (_itv(g, rd, ct, l['args'][1], env) or Itv(-1, -1)).lo == k for l in ldexps)
+        if x is None or not same_scale:
+            ck.inconclusive(rule, ct, 'threshold-fits-64-bits', modfs[0], 'the scale of the fractional part / the interval of the scaled ratio is not recognised')
+        else:
+            from fractions import Fraction
+            top = Fraction(x.hi) * (2 ** int(k) + 1)      # exact: 4294967295 * (2^32 + 1) = 2^64 - 1, which a double rounds to 2^64
+            ok = top < 2 ** 64
+            ck.verdict(ok, rule, ct, 'threshold-fits-64-bits', shifts[0],
+                       'largest threshold = %d * (2^%d + 1) = %d < 2^64' % (x.hi, k, top) if ok else
+                       'the scaled ratio reaches %g, so the threshold %g * (2^%d + 1) exceeds 2^64 - 1 and wraps around: ratios just below 1 map to small thresholds (a trace sampled at a lower ratio is dropped at a higher one)' % (x.hi, x.hi, k))
 
 
 def rule_r3(ck, prog, rule='C12.R3', cls='sdk::trace::ParentBasedSampler'):
@@ -591,7 +611,7 @@ def rule_r3(ck, prog, rule='C12.R3', cls='sdk::trace::ParentBasedSampler'):
 def run(ck, prog):
     ck.doc('C12.R1', 'ratio decision is a pure function of (trace id, threshold); threshold fixed from the ratio at construction; the mapping is applied to the configured ratio itself (sample table)', 6)
     ck.doc('C12.R2', 'guards: extreme ratios, zero threshold, id <= threshold, same mapping on both sides', 6)
-    ck.doc('C12.R2b', 'interval analysis: high/low combination of the threshold must carry; no integral conversion narrower than its operand', 2)
+    ck.doc('C12.R2b', 'interval analysis: high/low combination of the threshold must carry and fit 64 bits; no integral conversion narrower than its operand', 3)
     ck.doc('C12.R3', 'parent-based decision table; constant samplers', 7)
     cg = CallGraph(prog)
     with ck.canary('C12.R1'):
@@ -614,7 +634,7 @@ def run(ck, prog):
     c05.rule_r1(ck, prog, sf)
     # "the parent's sampled decision and the parent's trace state" reach the new span only if the tracer hands the sampler the
     # resolved parent and builds the context (recorded or not) from the sampler's / parent's trace state: C05.R2-R4
-    ck.doc('C05.R2', '(prerequisite, see C05) parent precedence decision table; the sampler and the recording Span receive the resolved parent', 9)
+    ck.doc('C05.R2', '(prerequisite, see C05) parent precedence decision table; the sampler (asked on every path) and the recording Span receive the resolved parent', 10)
     ck.doc('C05.R3', '(prerequisite, see C05) sources of trace id, span id, remote flag and trace state of the new context', 4)
     ck.doc('C05.R4', '(prerequisite, see C05) not-recording edge => NoopSpan with the same context; recording edge => SDK Span', 2)
     g5, rd5, sink5, vid5 = c05.rule_r2(ck, prog, sf)
